@@ -116,6 +116,29 @@ fn same_value(a: &Value, b: &Value) -> bool {
     }
 }
 
+/// A harness-owned mirror of the value type: the transport self-check must not go through evalexpr's own
+/// (de)serialization code, or a defect there would be blamed on the transport.
+#[derive(serde::Serialize, serde::Deserialize, Clone, Debug)]
+enum Mirror {
+    String(String),
+    Float(f64),
+    Int(i64),
+    Boolean(bool),
+    Tuple(Vec<Mirror>),
+    Empty,
+}
+
+fn mirror(v: &Value) -> Mirror {
+    match v {
+        Value::String(s) => Mirror::String(s.clone()),
+        Value::Float(f) => Mirror::Float(*f),
+        Value::Int(i) => Mirror::Int(*i),
+        Value::Boolean(b) => Mirror::Boolean(*b),
+        Value::Tuple(t) => Mirror::Tuple(t.iter().map(mirror).collect()),
+        Value::Empty => Mirror::Empty,
+    }
+}
+
 fn sorted_vars(c: &Ctx) -> Vec<(String, Value)> {
     let mut v: Vec<(String, Value)> = c.iter_variables().collect();
     v.sort_by(|a, b| a.0.cmp(&b.0));
@@ -248,8 +271,8 @@ fn main() {
             Ok(b) => b,
             Err(e) => {
                 // is it the transport? a plain map with the same keys and values must then fail as well
-                let plain: Vec<(String, Value)> = sorted_vars(&c);
-                let plain_ok = ron::ser::to_string(&plain).ok().and_then(|t| ron::de::from_str::<Vec<(String, Value)>>(&t).ok()).is_some();
+                let plain: Vec<(String, Mirror)> = sorted_vars(&c).iter().map(|(k, v)| (k.clone(), mirror(v))).collect();
+                let plain_ok = ron::ser::to_string(&plain).ok().and_then(|t| ron::de::from_str::<Vec<(String, Mirror)>>(&t).ok()).is_some();
                 if plain_ok {
                     report(format!("context/deserialize-fails: {} : {}", text, e));
                 }
